@@ -90,11 +90,12 @@ def CfbNewOnLayouts : Prop :=
       ∀ s ∈ streams, Cfb.hasDirectory c s.name = true
 
 /-- What C13's round-trip theorem gives for every valid layout, in the form the xls theorem needs: the container
-    opens, its directory holds exactly the root entry and the streams, and every stream reads back. -/
+    opens, its directory holds nothing but the root entry, the streams and unused (nameless) entries, and every
+    stream reads back. -/
 def CfbReadsLayouts : Prop :=
   ∀ (streams : List Cfb.Stream) (L : Cfb.Layout), Cfb.Valid streams L →
     ∃ c rd, Cfb.new (Cfb.layoutCfb streams L) (Cfb.layoutCfb streams L).length = .ok (c, rd) ∧
-      (∀ n, Cfb.hasDirectory c n = true ↔ (n = Cfb.rootName ∨ ∃ s ∈ streams, s.name = n)) ∧
+      (∀ n, Cfb.hasDirectory c n = true → (n = Cfb.rootName ∨ n = [] ∨ ∃ s ∈ streams, s.name = n)) ∧
       ∀ s ∈ streams, ∃ c' rd', Cfb.getStream c s.name rd = .ok (s.data, c', rd')
 
 end Password
